@@ -4,3 +4,8 @@ open GoMail.Props.C01
 #print axioms nesting_of_state
 #print axioms b64_body_is_encoding
 #print axioms raw_body_is_content
+#print axioms qp_body_roundtrip
+#print axioms qp_canon_lf
+#print axioms b64_body_roundtrip
+#print axioms render_is_tree
+#print axioms tree_leaves
